@@ -396,6 +396,50 @@ pub fn writer_round(seed: u64, stats: &mut C13Stats) -> Result<Option<Viol>, Str
     Ok(res)
 }
 
+/// "Once the owner is dropped the next attempt succeeds" - also when a child process forked while the owner was
+/// alive still holds inherited copies of the owner's descriptors (a forked helper that has not exec'ed yet).
+pub fn fork_round(ci: &CleanImage) -> Result<Option<Viol>, String> {
+    let dir = util::fresh_dir("c13f");
+    store::write_image(&dir, &ci.img);
+    let replay = json!({"kind": "c13", "mode": "fork"});
+    let owner = match attempt(&dir, &ci.cfg, false) {
+        Ok(Ok(o)) => o,
+        other => {
+            util::remove_dir(&dir);
+            return Err(format!("owner could not open: {:?}", other.map(|r| r.map(|_| ()).err())));
+        }
+    };
+    // the child only sleeps and exits: async-signal-safe calls only
+    let pid = unsafe { libc::fork() };
+    if pid < 0 {
+        drop(owner);
+        util::remove_dir(&dir);
+        return Err("fork failed".into());
+    }
+    if pid == 0 {
+        unsafe {
+            libc::sleep(30);
+            libc::_exit(0);
+        }
+    }
+    drop(owner);
+    let res = match attempt(&dir, &ci.cfg, false) {
+        Ok(Ok(o)) => {
+            drop(o);
+            None
+        }
+        Ok(Err(e)) => Some(v("still_locked_after_owner_dropped", format!("the owner was dropped, but a child process forked while it was alive still holds inherited descriptors, and the next open fails: {}", e), replay)),
+        Err(p) => Some(v("panic_in_open", p, replay)),
+    };
+    unsafe {
+        libc::kill(pid, libc::SIGKILL);
+        let mut st = 0;
+        libc::waitpid(pid, &mut st, 0);
+    }
+    util::remove_dir(&dir);
+    Ok(res)
+}
+
 pub fn run_shard(ctx: &mut Ctx) {
     let mut r = Rng::new(ctx.shard_seed());
     let mut stats = C13Stats::default();
@@ -462,6 +506,11 @@ pub fn run_shard(ctx: &mut Ctx) {
             Err(e) => ctx.out.inconclusive.push(format!("process round: {}", e)),
         }
         ctx.out.count("process_rounds", 1);
+        match fork_round(&ci) {
+            Ok(Some(vi)) => ctx.out.viol(vi),
+            Ok(None) => ctx.out.count("fork_rounds(owner_dropped_while_a_forked_child_holds_its_descriptors)", 1),
+            Err(e) => ctx.out.inconclusive.push(format!("fork round: {}", e)),
+        }
         ctx.out.tag("process_counts", &nprocs.to_string());
         ctx.out.evaluations += (stats.acquisitions - before.0) + (stats.refusals - before.1);
         // a round is informative only if contention was actually observed
